@@ -122,14 +122,8 @@ func (w *world) newHandler(ctx context.Context, kind string) (*hstate, *hqueue) 
 			}
 		}
 		if !used {
+			// no scripted program for this token (raw peers): default program
 			q = w.hq[c]
-			if q == nil {
-				q = &hqueue{ch: make(chan HOp, 4096)}
-				if w.closed {
-					close(q.ch)
-				}
-				w.hq[c] = q
-			}
 		}
 	}
 	w.handlers = append(w.handlers, hs)
